@@ -8,6 +8,7 @@ import (
 
 	"github.com/mithrandie/csvq/lib/parser"
 	"github.com/mithrandie/csvq/lib/value"
+	"github.com/mithrandie/csvq/lib/vhook"
 )
 
 var AnalyticFunctions = map[string]AnalyticFunction{
@@ -142,11 +143,13 @@ func Analyze(ctx context.Context, scope *ReferenceScope, view *View, fn parser.A
 			}
 		}()
 
+		vhook.Yield("analyze.start", thIdx)
 		start, end := gm.RecordRange(thIdx)
 		seqScope := scope.CreateScopeForSequentialEvaluation(view)
 
 	AnalyzeLoop:
 		for i := start; i < end; i++ {
+			vhook.Yield("analyze.row", thIdx)
 			if gm.HasError() {
 				break AnalyzeLoop
 			}
